@@ -322,7 +322,7 @@ def run_c(run, P):
                               '%s = %s (%d) does not fit the %d-bit %s field: the stored value is %d, a legal value of the quantity the field holds, so the "none yet" marker is '
                               'indistinguishable from real data' % (short(l), inner.get('mn') or inner.get('en'), v, w, 'signed' if l.get('s') else 'unsigned', v & ((1 << w) - 1)), [])
     run.instance('R-WIDTH', 'named-constant stores into record fields: %d' % n, n=1 if n else 0)
-    run.require(n >= 50 or run.fixture_mode, 'R-WIDTH(c): only %d stores of named constants into record fields found' % n)
+    run.require_count(n >= 50 or run.fixture_mode, 'R-WIDTH(c): only %d stores of named constants into record fields found' % n)
 
 
 def run_d(run, P, units=('coap_pdu.c', 'coap_option.c')):
@@ -452,7 +452,7 @@ def run_e(run, P, units=None):
                               '2^%d + k passes for k' % (nm, short(inner)[:60], init['w'], judged[:50], init['w']), [])
     run.stats['width_64bit_differences_stored'] = nd
     run.stats['width_64bit_differences_narrowed'] = n
-    run.require(nd >= 1 or run.fixture_mode or run.cfg != 'base', 'R-WIDTH(e): no stored difference of a 64-bit record field found any more (expected oscore_validate_sender_seq: shift)')
+    run.require_count(nd >= 1 or run.fixture_mode or run.cfg != 'base', 'R-WIDTH(e): no stored difference of a 64-bit record field found any more (expected oscore_validate_sender_seq: shift)')
 
 
 def run_f(run, P, units=None):
@@ -491,3 +491,75 @@ def run_f(run, P, units=None):
                                   'to apply to the shifted value (the high byte of a length / delta is written as 0)' % (short(t)[:60], l.get('t'), l['w'], K), [])
     run.instance('R-WIDTH', 'right shifts of explicitly narrowed values keep at least one bit: %d site(s)' % n)
     run.stats['width_cast_then_shift_sites'] = n
+
+
+def run_g(run, P, units=('coap_pdu.c', 'coap_option.c')):
+    """R-WIDTH (g): implicit narrowing into a local.  In the codec units a value the compiler converts implicitly to a NARROWER integer type on
+    its way into a variable (initialiser or plain assignment) fits that type whenever the interval analysis can bound it at all: an
+    expression assembled from wire bytes and constants (`(token[0] << 8) + token[1] + 269`: [269, 65804]) that exceeds the target (uint16_t)
+    is reported.  Values the analysis cannot bound (a wider variable with no facts) are declined -- they are what clauses (a), (d) and the
+    parameter limits deal with.  A decoded length taken modulo 2^16 makes the parser disagree with the encoder for exactly the largest
+    legal values."""
+    run.rule('R-WIDTH')
+    n = 0
+    for f in sorted(P.lib_funcs(), key=lambda f: f['name']):
+        if units and f['unit'] not in units:
+            continue
+        name = f['name']
+        cands = []
+        for b, ev in P.events(f):
+            t = ev['e']
+            pairs = []
+            if t.get('k') == 'decl':
+                pairs = [(d['n'], d['init']) for d in t['d'] if d.get('init')]
+            elif t.get('k') == 'asg' and t.get('op') == '=' and ev.get('top', True):
+                l0 = strip(t['l'])
+                if isinstance(l0, dict) and l0.get('k') == 'var':
+                    pairs = [(short(t['l']), t['r'])]
+            for nm, init in pairs:
+                if isinstance(init, dict) and init.get('k') == 'cast' and not init.get('ex') and init.get('ck') == 'IntegralCast' and init.get('w'):
+                    inner = init.get('e')
+                    i0 = strip(inner)
+                    if isinstance(i0, dict) and i0.get('w') and i0['w'] > init['w'] and const_int(inner) is None:
+                        cands.append((ev, nm, init, inner))
+        if not cands:
+            continue
+        cand_evs = set(id(c[0]) for c in cands)
+        extra = set()
+        for ev, nm, init, inner in cands:
+            extra |= aps_of(inner)
+
+        def is_rule_event(ev):
+            return id(ev) in cand_evs
+        keys, R = relevance(f, is_rule_event, extra)
+        R = R | extra
+        done = set()
+
+        def on_event(ev, env, ctx):
+            if id(ev) not in cand_evs:
+                return None
+            for cev, nm, init, inner in cands:
+                if cev is not ev:
+                    continue
+                rng = ivl.eval_raw(inner, env)
+                tr = ivl.type_range(init)
+                if rng[1] == INF or rng[0] == -INF:
+                    continue                                   # unbounded: declined
+                # a bound that is merely the range of the wider type says nothing
+                if rng == ivl.type_range(strip(inner)):
+                    continue
+                ok = ivl.fits(rng, tr)
+                k2 = (ev['loc'], nm)
+                run.oblige('R-WIDTH', ok, '%s:%s:implicit-narrowing-into-local' % (name, nm))
+                if k2 not in done:
+                    done.add(k2)
+                    run.instance('R-WIDTH', '%s: %s = %s  range %s into %s' % (name, nm, short(inner)[:40], ivl.fmt(rng), init.get('t')))
+                if not ok:
+                    run.violation('R-WIDTH', name, ev['loc'], 'implicit-narrowing-into-local:%s' % nm,
+                                  '%s receives %s, which can be %s, through an implicit conversion to %s (%d bits): the largest legal values arrive modulo 2^%d'
+                                  % (nm, short(inner)[:50], ivl.fmt(rng), init.get('t'), init['w'], init['w']), ctx.path())
+            return None
+        n += len(cands)
+        ctx = solve(f, Env(), on_event, None, keys, R)
+        run.stats['width_solver_steps'] += ctx.steps
+    run.stats['width_implicit_local_narrowings'] = n
